@@ -30,6 +30,7 @@ func biasFor(prop, tier string) gBias {
 	}
 	switch prop {
 	case "C01":
+		b.FailSibling = true
 		b.LoopKinds = true
 		b.PLoop = 20
 		b.FanIn = true
@@ -50,6 +51,7 @@ func biasFor(prop, tier string) gBias {
 		b.PFail = 30
 		b.PIgnore = 25
 	case "C06":
+		b.FailSibling = true
 		b.FanIn = true
 		b.PDedup = 60
 		b.PFail = 8
